@@ -1335,8 +1335,23 @@ func (in *inliner) inlineCallMode(call *ast.CallExpr, stack []*types.Func, sites
 	subst := map[types.Object]string{}
 	hasFuncLit := false
 	written := map[types.Object]bool{}
+	recvOfCall := map[types.Object]bool{} // variables some method is called on (a pointer-receiver method may write them)
 	ast.Inspect(fd.Body, func(n ast.Node) bool {
 		mark := func(e ast.Expr) {
+			// the variable at the root of x, x.f, x[i], x.f[i].g …
+			for {
+				switch y := ast.Unparen(e).(type) {
+				case *ast.SelectorExpr:
+					e = y.X
+					continue
+				case *ast.IndexExpr:
+					e = y.X
+					continue
+				case *ast.StarExpr:
+					return // writes through a pointer do not write the pointer variable
+				}
+				break
+			}
 			if id, ok := ast.Unparen(e).(*ast.Ident); ok {
 				if o := in.pk.TypesInfo.ObjectOf(id); o != nil {
 					written[o] = true
@@ -1344,6 +1359,16 @@ func (in *inliner) inlineCallMode(call *ast.CallExpr, stack []*types.Func, sites
 			}
 		}
 		switch x := n.(type) {
+		case *ast.CallExpr:
+			if se, ok := ast.Unparen(x.Fun).(*ast.SelectorExpr); ok {
+				if sel := in.pk.TypesInfo.Selections[se]; sel != nil && sel.Kind() == types.MethodVal {
+					if id, ok := ast.Unparen(se.X).(*ast.Ident); ok {
+						if o := in.pk.TypesInfo.ObjectOf(id); o != nil {
+							recvOfCall[o] = true
+						}
+					}
+				}
+			}
 		case *ast.FuncLit:
 			hasFuncLit = true
 		case *ast.AssignStmt:
@@ -1388,6 +1413,12 @@ func (in *inliner) inlineCallMode(call *ast.CallExpr, stack []*types.Func, sites
 		}
 		switch pv.Type().Underlying().(type) {
 		case *types.Pointer, *types.Interface, *types.Slice, *types.Map, *types.Chan, *types.Signature, *types.Basic:
+		case *types.Struct, *types.Array:
+			// a value that is only read (no field or element written, no address taken, no method called on it) can
+			// stand for its copy
+			if recvOfCall[pv] {
+				return false
+			}
 		default:
 			return false
 		}
